@@ -10,7 +10,13 @@ the single-goroutine result for the same tape, (4) GC histories (mode gchist):
 garblings of which the caller keeps only the data (header dropped), forced
 collections, further Garble calls on the same circuit, the retained data
 re-read and evaluated -- "valid until released" is about the data, whoever
-holds the header (Model/PoolGC.lean, C17_retained_garbling_valid).
+holds the header (Model/PoolGC.lean, C17_retained_garbling_valid), (5) result
+histories (mode rhist): circuits with 1..4 outputs of 1..1000 bits, the objects
+Compute returned / the label vector Eval filled in KEPT by the caller (not
+copied) and re-read after later calls on the same circuit value by the same and
+by other goroutines, plain and under the race detector; the Lean model runs
+Compute as a pure function returning a fresh value (Model/PoolResult.lean,
+C17_compute_result_retained).
 Go-memory-model data races are observable only at run time.
 
 bin/check C17 --replay F: when F holds a failing round / GC history of the
@@ -42,6 +48,9 @@ THEOREMS = [
     "Mpc.Pool.C17_gc_put_only_by_release_or_error_path",
     "Mpc.Pool.C17_retained_garbling_valid",
     "Mpc.Pool.C17_autorelease_breaks_retained_validity",
+    "Mpc.Pool.C17_compute_result_memory_never_written",
+    "Mpc.Pool.C17_compute_result_retained",
+    "Mpc.Pool.C17_pooled_result_alias_breaks_retention",
 ]
 
 GORACE = "halt_on_error=1 exitcode=66"
@@ -220,6 +229,42 @@ def gchist(ctx, n, seed, wide=False, tag=""):
         distinct_traces(ctx, ops, gc=True)
 
 
+def rhist(ctx, n, seed, binary=None, race=False, tag=""):
+    """Result histories (harness/cmd/c17/results.go): kept Compute / Eval results re-read after later calls."""
+    env, logbase = None, None
+    if race:
+        logbase = os.path.join(ctx.work, "race-report-rhist-%d%s" % (seed, tag))
+        env = {"GORACE": GORACE + " log_path=" + logbase}
+    ops, out, m = ctx.run_hx("rhist", n, seed=seed, binary=binary, env=env,
+                             tag=tag + ("-race" if race else ""), timeout=900)
+    rc = m.get("harness_rc", 0)
+    if race:
+        reports = ""
+        for f in sorted(glob.glob(logbase + ".*")):
+            reports += open(f, errors="replace").read()[:6000]
+        raced = rc == 66 or "DATA RACE" in reports or "DATA RACE" in m.get("harness_log", "")
+        ctx.oblige("result histories under the race detector (seed %d, %d histories): no DATA RACE report" % (seed, n),
+                   not raced, reports[:3000] or m.get("harness_log", ""))
+        if raced:
+            ctx.fails.append({"sig": "c17-data-race", "seed": seed, "histories": n,
+                              "what": "the Go race detector reported a data race between a goroutine reading a result "
+                                      "Compute returned to it and a later Compute call on the same circuit value",
+                              "report": vlib.clip(reports or m.get("harness_log", ""), 4000),
+                              "replay": "GORACE='%s' <c17 built with -race> rhist -seed %d -n %d" % (GORACE, seed, n)})
+            m.pop("harness_rc", None)
+    ctx.absorb_meta(m, prefix="race_" if race else "")
+    if not m.get("harness_rc") and rc == 0 and os.path.exists(ops) and os.path.getsize(ops) > 0:
+        ctx.correspond("result histories: every kept Compute result, at its return and at every later re-read, is the "
+                       "value of the pure model (%sseed %d)" % ("race build, " if race else "", seed), ops, out)
+        for line in open(ops, errors="replace"):
+            toks = line.split()
+            ws = [int(x) for x in toks[6].split(",")] if len(toks) > 6 else []
+            ev = [t[0] for t in toks[7:]]
+            # non-trivial: an output wider than a machine word, a result re-read after a later call
+            if any(w > 64 for w in ws) and "V" in ev and "C" in ev[ev.index("V"):] if "V" in ev else False:
+                ctx.distinct.add(hashlib.sha1(line.encode()).digest())
+
+
 def replay_request():
     """bin/check C17 --replay F: (mode, extra, seed, n, case) when F holds a failing case of the harness.  The harness
     derives every round / GC history from (seed, case index), so `-only <case>` re-runs exactly that case."""
@@ -229,7 +274,7 @@ def replay_request():
         f = sys.argv[sys.argv.index("--replay") + 1]
         f = f if os.path.isabs(f) else os.path.join(vlib.VERIF, f)
         fl = json.load(open(f)).get("failure") or {}
-        m = re.match(r"c17 (stress|gchist)( -extra wide)? -seed (\d+) -n (\d+) -only (\d+)$", fl.get("replay", ""))
+        m = re.match(r"c17 (stress|gchist|rhist)( -extra wide)? -seed (\d+) -n (\d+) -only (\d+)$", fl.get("replay", ""))
         if not m:
             return None
         return m.group(1), bool(m.group(2)), int(m.group(3)), int(m.group(4)), int(m.group(5)), fl.get("history")
@@ -284,7 +329,10 @@ def run(ctx):
         # real code; documents the limit, is neither an obligation nor a violation
         _, _, m = ctx.run_hx("contract", 20, tag="-contract")
         ctx.coverage["usage_contract_limit_replayed_on_real_code"] = m.get("contract", {"error": m.get("harness_log", "")[-300:]})
-        # GC histories first: cheap, sequential, replayable
+        # result histories first (cheapest; a kept result that changes is a concrete, replayable history)
+        for s in seeds:
+            rhist(ctx, 80 if quick else 600, s)
+        # GC histories: cheap, sequential, replayable
         for s in seeds:
             gchist(ctx, 120 if quick else 600, s)
         if ctx.widen:
@@ -298,6 +346,8 @@ def run(ctx):
             stress(ctx, 3000 if quick else 15000, s)
     race = ctx.build_hx(race=True)
     if race:
+        for s in seeds:
+            rhist(ctx, 40 if quick else 300, s, binary=race, race=True)
         for s in seeds:
             stress(ctx, 1200 if quick else 5000, s, binary=race, race=True)
     if ctx.widen and ctx.hx and race:
@@ -319,6 +369,9 @@ def run(ctx):
         want += [("gc_reads_of_data_only_garbling_after_collection_and_later_garble", 100),
                  ("gc_retained_header_kept", 30), ("gc_kind_gc-procs1", 20), ("gc_kind_gc-procs0", 10),
                  ("gc_ev_K", 100), ("gc_scratch_reuses", 100)]
+    if c.get("res_cases"):
+        want += [("res_cases_with_wide_output", 40), ("res_rereads_of_kept_results", 1000),
+                 ("res_parallel_bursts", 40), ("res_kind_res-procs1", 20), ("res_evals_kept", 20)]
     if ctx.coverage.get("completed_race_runs"):
         want += [("race_rounds_first_use_raced", 3), ("race_rounds_with_reuse", 10),
                  ("race_rounds_with_overlapping_handles", 10), ("race_ev_D", 20), ("race_ev_K", 20)]
@@ -342,6 +395,15 @@ def run(ctx):
         "ones; error path], closing with a collection, more garblings and a re-read + evaluation of everything "
         "retained; under GOMAXPROCS 1 (half), 2 and default; a scratch is identified by the address of the wire "
         "buffer.  distinct GC history = trace with a header drop, a later collection and a later Garble.")
+    ctx.coverage["rule"] += (
+        "  Half of the stress rounds re-cut the last wires of the circuit into 1..3 outputs over up to 300 wires; "
+        "Compute is called on 4 inputs per round and every goroutine keeps its last 4 returned results and re-reads "
+        "them after each later call.  Result histories (mode rhist, plain and race build): one circuit with 1..4 "
+        "outputs of 1..1000 bits (widths on both sides of the multiples of 32/64; every 8th case all narrow), "
+        "history of C (Compute on a fresh input, result kept as returned) / V (re-read of a kept result: snapshot "
+        "at return + reference evaluation) / P (1..4 goroutines x 1..4 concurrent calls, own re-reads, results "
+        "handed to goroutine 0) / E (Garble+Eval, label vector kept) / K / F, under GOMAXPROCS 1, 2, default; "
+        "distinct result history = an output wider than 64 bits and a re-read followed by a later call.")
     ctx.assumptions += [
         "usage contract of *Garbled as scoped by the doc comment of Release: one goroutine at a time inside a "
         "method of a given handle, no use after Release, no by-value copy; outside it the code double-Puts "
